@@ -413,7 +413,9 @@ fn root_create_file_body(base: u8) {
         assert!(t.res[0].ok && r.has_base);
         assert!(m.dirfd == t.res[0].ret_fd);
         assert!(name_is_ref_base(&m.name, m.name_len, p.bytes(), &r));
-        let want = (flags.bits() | libc::O_CREAT | libc::O_NOFOLLOW | libc::O_CLOEXEC | libc::O_NOCTTY) as u32 as u64;
+        // as seen at the openat_follow boundary: caller's flags + O_CREAT + the O_NOFOLLOW that
+        // syscalls::openat forces (O_CLOEXEC|O_NOCTTY are added inside openat_follow: O5.1b)
+        let want = (flags.bits() | libc::O_CREAT | libc::O_NOFOLLOW) as u32 as u64;
         assert!(m.flags == want);
         assert!(m.mode == mode);
         assert!(ok == m.ok);
@@ -756,7 +758,8 @@ fn mkdir_all_body_p(scen: u64, plan: [u8; 8], fixed_errno: i32) {
                         let op = k.log[idx + 1];
                         assert!(op.kind == C_OPENAT && op.dirfd == cur);
                         assert!(bytes_eq(&op.name, op.name_len, &tail.buf[comps.start[ci]..], comps.len[ci]));
-                        let want = (libc::O_DIRECTORY | libc::O_NOFOLLOW | libc::O_CLOEXEC | libc::O_NOCTTY) as u32 as u64;
+                        // at the openat_follow boundary (O_CLOEXEC|O_NOCTTY are added below it: O5.1b)
+                        let want = (libc::O_DIRECTORY | libc::O_NOFOLLOW) as u32 as u64;
                         assert!(op.flags == want);
                         if !op.ok {
                             aborted = true;
